@@ -14,9 +14,10 @@ TEXTS = ["ok", "user unknown", "line1\n\nline2", "\n\n\n", "<victim@example.org>
          "8bit \xe9\xff text\n", "a\n\n\n\nb\n", "", "Sorry, no mailbox here by that name. (#5.1.1)\n"]
 
 
-def addr_strategy():
+def addr_strategy(profile=None):
     dom = st.sampled_from(LOCALS + REMOTES + [VDOM, "sub." + VDOM, "LOC.example"])
-    return st.builds(lambda u, d: "%s@%s" % (u, d), st.sampled_from(USERS), dom)
+    users = USERS + (["jo\ne", "<x>:\n\ny"] if profile == "C14" else [])
+    return st.builds(lambda u, d: "%s@%s" % (u, d), st.sampled_from(users), dom)
 
 
 def sender_strategy(profile):
@@ -48,7 +49,7 @@ def scenario_strategy(profile):
         maxr = 12 if profile == "C04" else 4
         for mi in range(nm):
             nr = draw(st.integers(0, maxr)) if profile != "C14" else draw(st.integers(1, 5))
-            rc = [draw(addr_strategy()) for _ in range(nr)]
+            rc = [draw(addr_strategy(profile)) for _ in range(nr)]
             if profile == "C04" and nr >= 2 and draw(st.booleans()):
                 rc[1] = rc[0]          # duplicate address: multiplicity matters
             msgs.append({"sender": draw(sender_strategy(profile)), "rcpts": rc,
